@@ -25,9 +25,116 @@ NAMES = ["a", "a.b", "a.b.c", ".a", ".a.b", "a..b", "a.", "a b.c", "ü.x"]
 PREFIXES = ["", "/r"]          # directly below the root, and below one more directory
 
 
+HSCRIPT = ("mkdir -p \"$(dirname \"$3\")\"\n"
+           "printf '%s|%s|%s\\n' {id} \"$1\" \"$2\" > \"$3\"\n")
+
+
+def run_history(job):
+    """add(higher-priority candidate) / remove(chosen) histories on the real binary.
+
+    One project: only candidate `low` exists (its script creates the target's directory itself when needed);
+    build; create the higher-priority candidate `high` (possibly inside a directory that did not exist when the
+    rule was first looked up); redo-ifchange must rebuild the target with `high`; remove `high`; redo-ifchange must
+    rebuild it with `low` again; a further redo-ifchange runs nothing."""
+    root, bindir, target_rel, low, high, premkdir, idx = job
+    top = os.path.join(root, f"h{idx}")
+    PR = os.path.join(top, "pr")
+    home = os.path.join(top, "home")
+    res = {"target": target_rel, "low": low, "high": high, "premkdir": premkdir, "violations": [], "runs": 0}
+    try:
+        os.makedirs(PR)
+        os.makedirs(home)
+        PRr = os.path.realpath(PR)
+        cands = e4.ref_dofiles(PRr + "/" + target_rel)
+        for i in (low, high):
+            dd = cands[i]["do_dir"]
+            if not (dd == PRr or dd.startswith(PRr + "/")):
+                res["machinery"] = "candidate outside the project"
+                return res
+        tdir = os.path.dirname(target_rel)
+        if premkdir and tdir:
+            os.makedirs(os.path.join(PR, tdir))
+        env = common.base_env(bindir, home)
+        env["REDO_LOG"] = "0"
+        tpath = os.path.join(PR, target_rel)
+
+        def place(i):
+            c = cands[i]
+            os.makedirs(c["do_dir"], exist_ok=True)
+            with open(os.path.join(c["do_dir"], c["do_file"]), "w") as fh:
+                fh.write(HSCRIPT.format(id=i))
+
+        def build(step, want):
+            rc, out, err = common.run_cmd([os.path.join(bindir, "redo-ifchange"), target_rel], PR, env, timeout=30)
+            res["runs"] += 1
+            got = None
+            if os.path.isfile(tpath):
+                got = open(tpath, errors="replace").read().split("|")[0]
+            if rc != 0 or got != str(want):
+                res["violations"].append({"kind": "history-" + step, "rc": rc, "built_by": got, "want": want,
+                                          "stderr": err[-300:]})
+                return False
+            return True
+        if not os.path.isdir(cands[low]["do_dir"]):
+            os.makedirs(cands[low]["do_dir"])
+        place(low)
+        if not build("initial-build", low):
+            return res
+        place(high)
+        if not build("higher-priority-script-added-but-not-used", high):
+            return res
+        os.unlink(os.path.join(cands[high]["do_dir"], cands[high]["do_file"]))
+        if not build("chosen-script-removed-but-target-not-rebuilt", low):
+            return res
+        before = os.stat(tpath).st_ino
+        build("idle-rebuild", low)
+        if os.stat(tpath).st_ino != before:
+            res["violations"].append({"kind": "history-rebuilt-without-change"})
+        return res
+    finally:
+        shutil.rmtree(top, ignore_errors=True)
+
+
 def extra_checks(tier, verdict, cov):
-    """HOOK for the E1 histories part of C13 (add(higher-priority candidate), remove(chosen), ifchange)."""
-    return None
+    """E1-style histories of C13: add(higher-priority candidate), remove(chosen), redo-ifchange -- for every pair
+    low > high of in-project candidates of a few targets, with the target's directory existing beforehand or not."""
+    bindir = str(common.build_subject())
+    root = str(common.scratch_root() / "c13h")
+    os.makedirs(root, exist_ok=True)
+    targets = ["d/a.b", "d/e/a.b.c"] if tier == "quick" else ["a.b", "d/a.b", "d/e/a.b.c", "d.e/.a.b"]
+    jobs = []
+    idx = 0
+    for t in targets:
+        inproj = [i for i, (c, rel) in enumerate(in_project_candidates(t)) if rel is not None]   # never above the project
+        for low in inproj:
+            for high in [h for h in inproj if h < low]:
+                for premkdir in (True, False):
+                    jobs.append((root, bindir, t, low, high, premkdir, idx))
+                    idx += 1
+    bad = []
+    runs = 0
+    with concurrent.futures.ProcessPoolExecutor(max_workers=min(16, max(1, common.NCPU))) as ex:
+        for r in ex.map(run_history, jobs, chunksize=4):
+            if "machinery" in r:
+                raise MachineryError("C13 histories: %s (%s)" % (r["machinery"], r["target"]))
+            runs += r["runs"]
+            for v in r["violations"]:
+                bad.append((r, v))
+    seen = set()
+    for r, v in sorted(bad, key=lambda rv: (rv[0]["low"], rv[0]["high"], len(rv[0]["target"]))):
+        sig = {"kind": v["kind"], "target": r["target"], "target_dir_existed": r["premkdir"]}
+        key = json.dumps(sig, sort_keys=True)
+        if key in seen:
+            continue
+        seen.add(key)
+        if len(seen) <= 10:
+            verdict.report(sig, {"engine": "E1-history", "check": "history", "target": r["target"], "low": r["low"],
+                                 "high": r["high"], "premkdir": r["premkdir"], "violation": v})
+    if cov is not None:
+        cov["histories"] = {"targets": targets, "histories": len(jobs), "commands_run": runs, "violating": len(bad)}
+        cov["evaluations"] += len(jobs)
+        cov["distinct_nontrivial"] += len(jobs)
+    return bad
 
 
 # ---------------------------------------------------------------------------
